@@ -20,12 +20,17 @@ def _ctxvars(m):
     """module-level ``V = ContextVar(name, default=<Name P>)`` -> {V: P}"""
     out = {}
     for st in m.tree.body:
+        tgt = None
         if isinstance(st, ast.Assign) and len(st.targets) == 1 and isinstance(st.targets[0], ast.Name):
+            tgt = st.targets[0].id
+        elif isinstance(st, ast.AnnAssign) and isinstance(st.target, ast.Name) and st.value is not None:
+            tgt = st.target.id
+        if tgt is not None:
             v = st.value
             if isinstance(v, ast.Call) and (call_name(v) or "").split(".")[-1] == "ContextVar":
                 for kw in v.keywords:
                     if kw.arg == "default" and isinstance(kw.value, ast.Name):
-                        out[st.targets[0].id] = (kw.value.id, st, kw.value)
+                        out[tgt] = (kw.value.id, st, kw.value)
     return out
 
 
@@ -95,6 +100,8 @@ def check(ctx):
             for t in st.targets:
                 if isinstance(t, ast.Name) and t.id in privates:
                     allowed.add(id(t))
+        elif isinstance(st, ast.AnnAssign) and isinstance(st.target, ast.Name) and st.target.id in privates:
+            allowed.add(id(st.target))
     funcs = ix.funcs_in(m)
     _ACCESSORS.clear()
     for f in funcs:
@@ -158,9 +165,38 @@ def check(ctx):
     rep.floor("registry access sites through the ContextVars", access_sites, 9)
 
     scope_funcs = sorted(setters)
+
+    def _is_cm(fn_):
+        return any(isinstance(d, ast.Name) and d.id == "contextmanager" or (isinstance(d, ast.Attribute) and d.attr == "contextmanager")
+                   for d in fn_.node.decorator_list)
+
+    # private helpers whose only callers are @contextmanager functions of this module are part of those scope functions
+    helper_mode = {}
     for qn in scope_funcs:
         f = ix.func(MOD, qn)
-        if not any(isinstance(d, ast.Name) and d.id == "contextmanager" or (isinstance(d, ast.Attribute) and d.attr == "contextmanager")
+        if _is_cm(f) or not qn.startswith("_") or "." in qn:
+            continue
+        callers, foreign = [], False
+        for mod in ix.modules.values():
+            if qn not in mod.source:
+                continue
+            for g in mod.functions.values():
+                if g is f:
+                    continue
+                if any(isinstance(c_, ast.Call) and isinstance(c_.func, ast.Name) and c_.func.id == qn for c_ in ast.walk(g.node)):
+                    if mod is m:
+                        callers.append(g)
+                    else:
+                        foreign = True
+            if mod is not m and any(isinstance(n_, ast.ImportFrom) and any(a_.name == qn for a_ in n_.names) for n_ in ast.walk(mod.tree)):
+                foreign = True
+        if callers and not foreign and all(_is_cm(g) for g in callers):
+            helper_mode[qn] = sorted(g.qualname for g in callers)
+    for qn in scope_funcs:
+        f = ix.func(MOD, qn)
+        if qn in helper_mode:
+            rep.proved("R-C66-var", f"{m.relpath}:{qn}", f"private helper called only from the @contextmanager {helper_mode[qn]}")
+        elif not any(isinstance(d, ast.Name) and d.id == "contextmanager" or (isinstance(d, ast.Attribute) and d.attr == "contextmanager")
                    for d in f.node.decorator_list):
             for v, kind, call in setters[qn]:
                 rep.refuted("R-C66-var", m.relpath, qn, call,
@@ -220,6 +256,9 @@ def check(ctx):
                 return bool(rr and isinstance(rr[0], ast.Name) and rr[0].id == var and rr[1] == "reset"
                             and s.value.args and isinstance(s.value.args[0], ast.Name) and s.value.args[0].id == tok)
 
+            if qn in helper_mode:
+                rep.unknown("R-C66-scope", f"{m.relpath}:{qn} {var}.set -> reset({tok})",
+                            f"set lives in a helper of {helper_mode[qn]}; the pairing with the reset across the helper boundary is not followed")
             bad = None
             # an exception raised by the set statement itself comes from evaluating its argument (or from set): the registry was not
             # swapped yet, so only what follows the statement on its normal continuation has to reach a reset
@@ -234,7 +273,9 @@ def check(ctx):
                         break
                 if bad:
                     break
-            if bad:
+            if qn in helper_mode:
+                pass
+            elif bad:
                 exname, p = bad
                 via = " -> ".join(f"L{x.line}" for x in p if x.stmt is not None)
                 rep.refuted("R-C66-scope", m.relpath, qn, st,
